@@ -172,10 +172,13 @@ impl TaskManager {
 	}
 
 	pub(crate) fn wake_up_memtable(&self) {
-		// Only notify if not already running
-		if !self.memtable_running.load(Ordering::Acquire) {
-			self.memtable_notify.notify_one();
-		}
+		// Always leave a wake-up behind. `Notify` keeps at most one permit, so this
+		// cannot pile up; skipping it while the task is running loses the wake-up
+		// when the task has already made its last "anything pending?" check but has
+		// not yet cleared `memtable_running`: the memtable rotated in that window
+		// stays unflushed, and once the stalled writers have filled the immutable
+		// queue nobody is left to rotate again and wake the task - every commit hangs.
+		self.memtable_notify.notify_one();
 	}
 
 	pub(crate) fn wake_up_level(&self) {
